@@ -18,6 +18,7 @@ import (
 	"math"
 	"math/big"
 	"reflect"
+	"strconv"
 	"strings"
 
 	"verifharness/vh"
@@ -93,6 +94,7 @@ type outcome struct {
 	ok   bool
 	z    *big.Int // integer kinds
 	bits uint64   // float kinds (float32: 32-bit pattern)
+	ecls int      // !ok: 3 = the error says "overflow" (Outcome.EOverflow), 8 = any other error (EOther)
 }
 
 func decodeInto(format string, bs []byte, k kindT, named bool) (o outcome) {
@@ -111,7 +113,11 @@ func decodeInto(format string, bs []byte, k kindT, named bool) (o outcome) {
 		err = codec.NewDecoderBytes(bs, handle(format)).Decode(rv.Interface())
 	}()
 	if err != nil {
-		return outcome{}
+		o.ecls = 8
+		if strings.Contains(err.Error(), "overflow") {
+			o.ecls = 3
+		}
+		return
 	}
 	o.ok = true
 	e := rv.Elem()
@@ -743,6 +749,9 @@ func jsonLiterals(ints []*big.Int, r *vh.Rng, extra int) []string {
 			add(v.String() + "e0")
 		}
 	}
+	for _, l := range jsonModelLiterals() {
+		add(l)
+	}
 	for i := 0; i < extra; i++ {
 		// random mantissa digits, dot position and exponent around the uint64/int64 limits
 		nd := 1 + r.Intn(22)
@@ -777,6 +786,89 @@ func jsonLiterals(ints []*big.Int, r *vh.Rng, extra int) []string {
 	return out
 }
 
+// jsonModelLiterals: the forms the Coq model of json number decoding (C07/Json.v) is tied on,
+// besides the sets above: integral exponent forms NeK, leading zeros and signs in the exponent,
+// -0 / -0.0 / 1e0 / 1.0 / 1.50e1, fraction digits that cancel with the exponent, 19-21 digit
+// mantissas around the uint64 / int64 limits and the mantissa cutoff, every kind's boundaries.
+func jsonModelLiterals() (out []string) {
+	add := func(s string) { out = append(out, s) }
+	for _, s := range []string{"0", "-0", "-0.0", "0.0", "0e0", "-0e0", "0E+5", "0e-5", "0.000", "-0.000e3", "1e0", "1.0", "1.50e1", "1.5e1", "1.5e0",
+		"1.50e0", "15e-1", "150e-1", "150e-2", "1500e-2", "1e1", "1E1", "1e+1", "1E+1", "1e-0", "1e+0", "1e01", "1e001", "1e00", "1E-00", "1e019", "1e19", "1e20", "1e-19", "1e-20",
+		"12e01", "12e+01", "12e-01", "120e-01", "1e2", "1e02", "1e002", "1.0e2", "1.00e2", "1.000e2", "1.001e2", "1.001e3", "1.0010e3", "10.010e2", "10.010e3",
+		"255", "256", "25.5e1", "25.6e1", "2.55e2", "0.255e3", "0.0255e4", "2550e-1", "25500e-2", "127", "128", "-128", "-129", "12.7e1", "-12.8e1", "-1.29e2",
+		"32767", "32768", "-32768", "-32769", "65535", "65536", "6.5535e4", "6.5536e4", "655.35e2", "2147483647", "2147483648", "-2147483648", "-2147483649",
+		"4294967295", "4294967296", "4.294967295e9", "4.294967296e9", "42949672.95e2", "42949672950e-1", "-1", "-1.0", "-1e0", "-10e-1", "-0.5", "0.5e1", "5e-1", "5e-01",
+		"9e18", "9.2e18", "9.3e18", "1.8e19", "1.9e19", "18e18", "19e18", "184e17", "185e17", "-9e18", "-9.2e18", "-9.3e18",
+		"1e-1", "1e-01", "10e-1", "100e-1", "100e-2", "100e-3", "1000e-3", "1.000", "1.0001", "0.1e1", "0.10e1", "0.01e2", "0.01e1", "0.001e3", "0.0010e3", "0.00100e3",
+		"1e100", "1e99", "1e-99", "1e-100", "0e100", "0e999", "0e-999", "0.0e999", "1e999", "-1e999", "1e-999"} {
+		add(s)
+	}
+	// 18-21 digit mantissas around 2^63, 2^64, the cutoff and round numbers, with every small exponent form
+	stems := []string{"9223372036854775807", "9223372036854775808", "9223372036854775809", "18446744073709551615", "18446744073709551616", "18446744073709551617",
+		"1844674407370955161", "1844674407370955162", "10000000000000000000", "99999999999999999999", "100000000000000000000", "999999999999999999", "1000000000000000000",
+		"123456789012345678901", "18446744073709551610", "18446744073709551620", "184467440737095516150", "184467440737095516160", "922337203685477580700", "922337203685477580800"}
+	for _, st := range stems {
+		for _, sg := range []string{"", "-"} {
+			add(sg + st)
+			for _, ex := range []string{"e0", "e1", "e-1", "e-2", "E-3", "e+1", "e01", "e-01", "e2"} {
+				add(sg + st + ex)
+			}
+			// a decimal point at every position near the end and the matching exponent (fraction digits cancel)
+			for p := 1; p <= 3 && p < len(st); p++ {
+				add(sg + st[:len(st)-p] + "." + st[len(st)-p:] + fmt.Sprintf("e%d", p))
+				add(sg + st[:len(st)-p] + "." + st[len(st)-p:] + fmt.Sprintf("e%d", p-1))
+				add(sg + st[:len(st)-p] + "." + st[len(st)-p:] + fmt.Sprintf("e%d", p+1))
+				add(sg + st[:len(st)-p] + "." + st[len(st)-p:])
+			}
+			add(sg + st[:1] + "." + st[1:] + fmt.Sprintf("e%d", len(st)-1))
+			add(sg + st[:1] + "." + st[1:] + "0" + fmt.Sprintf("e%d", len(st)-1))
+			add(sg + "0." + st + fmt.Sprintf("e%d", len(st)))
+		}
+	}
+	// NeK with K = 0..21 for small N
+	for _, m := range []string{"1", "2", "9", "18", "19", "92", "93", "184", "185", "1844", "1845"} {
+		for k := 0; k <= 21; k++ {
+			add(fmt.Sprintf("%se%d", m, k))
+			add(fmt.Sprintf("-%se%d", m, k))
+		}
+	}
+	return
+}
+
+// jsonRawTokens: number-character tokens OUTSIDE the RFC 8259 grammar.  They are model cases only (the
+// model claims to mirror the code on every token; the property and its oracle quantify over literals of
+// the grammar, and readFloat's leniency about empty integer / fraction / exponent parts is documented
+// under C09): what the real Decoder does with them must be what C07/Json.v computes.
+func jsonRawTokens() []string {
+	return []string{"00", "01", "-01", "1.", ".5", "-", "+1", "1e", "1e+", "1e-", "1.e1", "1e1.0", "1e1e1", "--1", "1-", "1+1", "1e+-1", "1..0", "1.0.0",
+		"-.5", "e1", "E1", "-e1", ".", "-.", "0.", "-0.", "0e", "00.5", "1e0001", "1e+001", "-00", "0123456789", "18446744073709551615.", "18446744073709551616.",
+		"1.e19", "2.e19", ".1e1", "1e+", "+", "++1", "+-1", "-+1", "1e++1", "1E", "1.5.", "1.5e", "1.5e1.", "0x10", "1_0"}
+}
+
+// jsonToken: the literal is exactly what jsonReadNum hands to the number parsers when it is decoded
+// alone at top level (non-empty, only number characters, not starting a string / null)
+func jsonToken(lit string) bool {
+	if len(lit) == 0 {
+		return false
+	}
+	for i := 0; i < len(lit); i++ {
+		c := lit[i]
+		if !(c >= '0' && c <= '9' || c == '.' || c == 'e' || c == 'E' || c == '+' || c == '-') {
+			return false
+		}
+	}
+	return true
+}
+
+func coqBytesN(b []byte) string { return coqBytesZ(b) + "%N" }
+
+func coqOptBits(bits uint64, err error) string {
+	if err != nil {
+		return "None"
+	}
+	return fmt.Sprintf("(Some %d)", bits)
+}
+
 // ---- Coq rendering ----
 
 func coqZBig(v *big.Int) string {
@@ -797,6 +889,26 @@ func coqBytesZ(b []byte) string {
 	}
 	sb.WriteString("]")
 	return sb.String()
+}
+
+// jsonOut: what the real Decoder did with a json token for one destination kind, for C07.Corr.mkjson:
+// (true, stored value) or (false, error class)
+func jsonOut(k kindT, o outcome) string {
+	if !o.ok {
+		return fmt.Sprintf("(false,%d)", o.ecls)
+	}
+	if k.class == "float" {
+		return fmt.Sprintf("(true,%d)", o.bits)
+	}
+	return fmt.Sprintf("(true,%s)", coqZBig(o.z))
+}
+
+// jsonCase: the token, strconv.ParseFloat's answers for it (the oracle argument of the model) and the outcomes
+func jsonCase(idx int, lit string, jouts []string) string {
+	f64, e64 := strconv.ParseFloat(lit, 64)
+	f32, e32 := strconv.ParseFloat(lit, 32)
+	return fmt.Sprintf("mkjson %d %s %s %s [%s]", idx, coqBytesN([]byte(lit)),
+		coqOptBits(math.Float64bits(f64), e64), coqOptBits(uint64(math.Float32bits(float32(f32))), e32), strings.Join(jouts, ";"))
 }
 
 var fmtCode = map[string]int{"cbor": 0, "msgpack": 1, "binc": 2, "simple": 3, "json": 4}
@@ -862,7 +974,7 @@ func main() {
 		srcs = append(srcs, jsonSource(l))
 	}
 
-	header := "From Coq Require Import List ZArith.\nFrom Verif Require Import C07.Model C07.Corr.\nImport ListNotations.\nLocal Open Scope Z_scope."
+	header := "From Coq Require Import List NArith ZArith.\nFrom Verif Require Import C07.Model C07.Corr.\nImport ListNotations.\nLocal Open Scope Z_scope."
 	cv := vh.NewCases(*casesDir, header, "case", "mismatches", 60)
 	seenBytes := map[string]bool{}
 	for idx, s := range srcs {
@@ -873,15 +985,22 @@ func main() {
 		seenBytes[key] = true
 		if s.format == "json" && s.rat == nil {
 			// not a number by the oracle's parser: the property only says something when the decoder accepts it
+			var jouts []string
 			for _, k := range kinds {
-				if o := decodeInto(s.format, s.bytes, k, false); o.ok {
+				o := decodeInto(s.format, s.bytes, k, false)
+				if o.ok {
 					sum.FailC("oracle", "json:not-a-number-accepted->"+k.class, "a literal that is not a JSON number was accepted into a numeric destination",
 						map[string]interface{}{"format": "json", "literal": s.lit, "dest": k.name})
 				}
+				jouts = append(jouts, jsonOut(k, o))
+			}
+			if jsonToken(s.lit) {
+				cv.Add(jsonCase(idx, s.lit, jouts))
+				sum.ModelCases++
 			}
 			continue
 		}
-		var outs []string
+		var outs, jouts []string
 		for _, k := range kinds {
 			o := decodeInto(s.format, s.bytes, k, false)
 			on := decodeInto(s.format, s.bytes, k, true)
@@ -921,6 +1040,9 @@ func main() {
 				}
 			}
 			outs = append(outs, fmt.Sprintf("(%s,%s)", vh.CoqBool(o.ok), val))
+			if s.format == "json" {
+				jouts = append(jouts, jsonOut(k, o))
+			}
 			// evidence bookkeeping
 			triv := (s.isInt && k.name == "int64" && o.ok) || (!s.isInt && k.name == "float64")
 			oc := "err"
@@ -945,9 +1067,26 @@ func main() {
 			cv.Add(fmt.Sprintf("mkcase %d %d %s [%s]", idx, fmtCode[s.format], coqBytesZ(s.bytes), strings.Join(outs, ";")))
 			sum.ModelCases++
 		}
+		if s.format == "json" && jsonToken(s.lit) {
+			cv.Add(jsonCase(idx, s.lit, jouts))
+			sum.ModelCases++
+			sum.Dist["json.model_cases"]++
+		}
 		if idx%997 == 0 {
 			sum.Sample(map[string]interface{}{"format": s.format, "repr": s.repr, "bytes": vh.Hex(s.bytes)})
 		}
+	}
+	for i, t := range jsonRawTokens() {
+		if !jsonToken(t) || seenBytes["json:"+t] {
+			continue
+		}
+		var jouts []string
+		for _, k := range kinds {
+			jouts = append(jouts, jsonOut(k, decodeInto("json", []byte(t), k, false)))
+		}
+		cv.Add(jsonCase(len(srcs)+i, t, jouts))
+		sum.ModelCases++
+		sum.Dist["json.model_raw_tokens"]++
 	}
 	cv.Close()
 	seqStream(sum, r.Fork(), *nSeq)
